@@ -102,7 +102,7 @@ func genC13(t *rapid.T) c13Case {
 		pos := rapid.IntRange(0, len(runes)).Draw(t, "hpos")
 		msg = string(runes[:pos]) + ph + string(runes[pos:])
 		if _, ok := c.NodeProps[prop]; !ok && rapid.IntRange(0, 3).Draw(t, "hpresent") != 0 {
-			c.NodeProps[prop] = pick(t, []m.Lit{m.S("abc"), m.S("Xy9"), m.I(42), m.B(true)}, "hval")
+			c.NodeProps[prop] = pick(t, []m.Lit{m.S("abc"), m.S("Xy9"), m.I(42), m.B(true), m.B(false), m.I(0), m.I(-7), m.S("false"), m.S("null"), m.S("0")}, "hval")
 		}
 	}
 	c.Message.S = msg
